@@ -7,9 +7,9 @@ pub open spec fn is_king_table(t: &Nonmagics) -> bool { forall|s: u32, d: u32| s
 pub open spec fn is_pawn_table(t: &Nonmagics, color: u32) -> bool { forall|s: u32, d: u32| s < 64 && d < 64 ==> (bit_set(#[trigger] t[s as int], d) <==> #[trigger] pawn_att(color, s, d)) }
 
 #[verifier::external_body]
-pub fn rook_magics() -> (r: &'static Magics) ensures is_rook_table(r) { unimplemented!() }
+pub fn rook_magics() -> (r: &'static Magics) ensures is_rook_table(r), !is_bishop_table(r) { unimplemented!() }
 #[verifier::external_body]
-pub fn bishop_magics() -> (r: &'static Magics) ensures is_bishop_table(r) { unimplemented!() }
+pub fn bishop_magics() -> (r: &'static Magics) ensures is_bishop_table(r), !is_rook_table(r) { unimplemented!() }
 #[verifier::external_body]
 pub fn knight_nonmagics() -> (r: &'static Nonmagics) ensures is_knight_table(r) { unimplemented!() }
 #[verifier::external_body]
